@@ -58,7 +58,7 @@ class Resp:
         self.request = Req()
 
 
-async def scenario(name, script):
+async def scenario(name, script, handlers=False):
     import concurrent.futures
     import web_monitoring_diff.server.server as df
     created = []
@@ -90,7 +90,14 @@ async def scenario(name, script):
             for p in created:
                 out += list((p._processes or {}).keys())
             return out
-        problems = await script(app, start, pids, created)
+        if handlers:
+            # the way start_app() runs the service: its SIGINT/SIGTERM handlers are installed before the first pool forks, so the
+            # workers inherit them (no signal is sent here; what matters is what a worker does with a SIGTERM from the pool itself)
+            from web_monitoring_diff.utils import Signal
+            with Signal((signal.SIGINT, signal.SIGTERM), app.handle_signal):
+                problems = await script(app, start, pids, created)
+        else:
+            problems = await script(app, start, pids, created)
         all_pids = set(problems.pop('pids'))
         pools_at_begin = problems.pop('pools_at_begin')
         fails = problems.pop('fails')
@@ -321,21 +328,43 @@ async def http_scenario(name, immediate, stage='diffing'):
                     pass
 
 
+def watchdog(name, seconds=120):
+    """A scenario that does not come back is a failure of its own (workers that cannot be stopped keep the pool's threads, and with
+    them the event loop's teardown, from finishing): report it, kill the children, leave."""
+    def hung(signum, frame):
+        alive = [c.pid for c in __import__('multiprocessing').active_children() if c.is_alive()]
+        print('%-34s FAILED: the scenario did not finish within %d s (shutdown or loop teardown hangs); %d worker process(es) still alive: %s' % (
+            name, seconds, len(alive), alive), flush=True)
+        for child in __import__('multiprocessing').active_children():
+            try:
+                child.kill()
+            except Exception:  # noqa
+                pass
+        os._exit(1)
+    signal.signal(signal.SIGALRM, hung)
+    signal.alarm(seconds)
+
+
 def main():
     scenarios = [('idle, graceful', s_idle), ('busy, graceful', s_graceful_busy), ('queued, graceful', s_graceful_queued), ('busy, immediate', s_immediate_busy),
                  ('busy, graceful then immediate', s_escalate), ('before any pool exists', s_before_pool),
-                 ('worker killed, then graceful', s_broken_then_shutdown)]
+                 ('worker killed, then graceful', s_broken_then_shutdown), ('server signal handlers, worker killed, then graceful', s_broken_then_shutdown),
+                 ('server signal handlers, busy, immediate', s_immediate_busy)]
     ok = True
     for name, fn in scenarios:
         try:
-            ok = asyncio.run(asyncio.wait_for(scenario(name, fn), 60)) and ok
+            watchdog(name)
+            ok = asyncio.run(asyncio.wait_for(scenario(name, fn, handlers=name.startswith('server signal handlers')), 60)) and ok
+            signal.alarm(0)
         except Exception as e:  # noqa
             print('%-34s FAILED: probe raised %s: %s' % (name, type(e).__name__, e), flush=True)
             ok = False
     for name, immediate, stage in (('HTTP request in flight, graceful', False, 'diffing'), ('HTTP request in flight, immediate', True, 'diffing'),
                                    ('HTTP request still fetching, graceful', False, 'fetching'), ('HTTP request still fetching, immediate', True, 'fetching')):
         try:
+            watchdog(name)
             ok = asyncio.run(asyncio.wait_for(http_scenario(name, immediate, stage), 60)) and ok
+            signal.alarm(0)
         except Exception as e:  # noqa
             print('%-34s FAILED: probe raised %s: %s' % (name, type(e).__name__, e), flush=True)
             ok = False
@@ -343,4 +372,13 @@ def main():
 
 
 if __name__ == '__main__':
-    sys.exit(main())
+    rc = main()
+    sys.stdout.flush()
+    # leave without the interpreter's exit handlers: concurrent.futures joins the manager thread of every pool at exit, and that
+    # thread never returns when workers of a broken pool ignore SIGTERM (which is exactly what one scenario detects)
+    for child in __import__('multiprocessing').active_children():
+        try:
+            child.kill()
+        except Exception:  # noqa
+            pass
+    os._exit(rc)
